@@ -46,6 +46,8 @@ pub struct Block {
     pub base: usize,
     pub size: usize,
     pub live: bool,
+    /// taken from the kernel with mmap (released with munmap), not from the libc allocator
+    pub mapped: bool,
 }
 
 #[derive(Clone, Copy, Debug)]
@@ -117,7 +119,7 @@ static mut STATE: State = State {
     recs: [Rec { kind: CallKind::Free, addr: 0, len: 0, arg: 0, ret: 0, injected: false }; MAX_RECS],
     nrecs: 0,
     overflow: false,
-    blocks: [Block { base: 0, size: 0, live: false }; MAX_BLOCKS],
+    blocks: [Block { base: 0, size: 0, live: false, mapped: false }; MAX_BLOCKS],
     nblocks: 0,
     rels: [Release { base: 0, size: 0, nonzero: 0, first_nonzero_off: 0, last_nonzero_off: 0, nonzero_guard: 0 }; MAX_RELS],
     nrels: 0,
@@ -418,7 +420,7 @@ pub unsafe extern "C" fn madvise(addr: *mut c_void, len: size_t, advice: c_int) 
     r
 }
 
-unsafe fn register_block(p: usize, size: usize, zero_fill: bool) {
+unsafe fn register_block(p: usize, size: usize, zero_fill: bool, mapped: bool) {
     let s = st();
     if zero_fill {
         // glibc hands back dirty memory: zero-fill, so that a non-zero byte seen
@@ -429,13 +431,14 @@ unsafe fn register_block(p: usize, size: usize, zero_fill: bool) {
     for b in s.blocks[..s.nblocks].iter_mut() {
         if !b.live && b.base == p && b.size == size {
             b.live = true;
+            b.mapped = mapped;
             placed = true;
             break;
         }
     }
     if !placed {
         if s.nblocks < MAX_BLOCKS {
-            s.blocks[s.nblocks] = Block { base: p, size, live: true };
+            s.blocks[s.nblocks] = Block { base: p, size, live: true, mapped };
             s.nblocks += 1;
         } else {
             s.overflow = true;
@@ -493,7 +496,7 @@ pub unsafe extern "C" fn posix_memalign(out: *mut *mut c_void, align: size_t, si
     if ARMED.load(Ordering::Relaxed) {
         let s = st();
         if align == s.page && size >= 3 * s.page {
-            register_block(p as usize, size, true);
+            register_block(p as usize, size, true, false);
         }
     }
     0
@@ -505,7 +508,7 @@ pub unsafe extern "C" fn memalign(align: size_t, size: size_t) -> *mut c_void {
     if !p.is_null() && ARMED.load(Ordering::Relaxed) {
         let s = st();
         if align == s.page && size >= 3 * s.page {
-            register_block(p as usize, size, true);
+            register_block(p as usize, size, true, false);
         }
     }
     p
@@ -546,7 +549,7 @@ pub unsafe extern "C" fn mmap(addr: *mut c_void, len: size_t, prot: c_int, flags
         let s = st();
         if len >= 3 * s.page {
             // fresh anonymous pages are zero already (and may be PROT_NONE): do not touch them
-            register_block(p as usize, len, false);
+            register_block(p as usize, len, false, true);
         }
     }
     p
@@ -758,6 +761,33 @@ pub fn take_releases() -> Vec<Release> {
 pub fn live_block_containing(addr: usize) -> Option<Block> {
     let s = st();
     s.blocks[..s.nblocks].iter().find(|b| b.live && b.base <= addr && addr < b.base + b.size).copied()
+}
+
+/// End of a run, every handle gone: hand blocks the library never released back to the system
+/// (after they have been judged), so that a leaking build does not slow every later run of
+/// the worker down with an ever longer /proc/self/smaps. Returns how many there were.
+pub fn release_leaked() -> usize {
+    let s = st();
+    let mut n = 0;
+    for i in 0..s.nblocks {
+        let b = s.blocks[i];
+        if !b.live {
+            continue;
+        }
+        n += 1;
+        unsafe {
+            libc::syscall(libc::SYS_munlock, b.base, b.size);
+            if b.mapped {
+                libc::syscall(libc::SYS_munmap, b.base, b.size);
+            } else {
+                libc::syscall(libc::SYS_mprotect, b.base, b.size, libc::PROT_READ | libc::PROT_WRITE);
+                libc::syscall(libc::SYS_madvise, b.base, b.size, libc::MADV_DOFORK);
+                __libc_free(b.base as *mut c_void);
+            }
+        }
+        s.blocks[i].live = false;
+    }
+    n
 }
 
 pub fn all_blocks() -> Vec<Block> {
